@@ -16,9 +16,10 @@
 import Nq.Basic
 import Nq.RemoteSmtp
 import Nq.RspawnReport
+import Nq.RemoteConnect
 
 namespace Nq.Spec.RemoteVerdict
-open Nq Nq.RemoteSmtp Nq.RspawnReport
+open Nq Nq.RemoteSmtp Nq.RspawnReport Nq.RemoteConnect
 
 /-! ### line-based reading of the reply stream -/
 
@@ -50,6 +51,18 @@ def decCode : Bytes → Option Nat
     if isDigit a && isDigit b && isDigit c then some ((a.toNat - 48) * 100 + (b.toNat - 48) * 10 + (c.toNat - 48))
     else none
   | _ => none
+
+def decCodes : List Bytes → Option (List Nat)
+  | [] => some []
+  | f :: fs =>
+    match decCode f, decCodes fs with
+    | some c, some cs => some (c :: cs)
+    | _, _ => none
+
+/-- the reply codes by the line-based reading, when every line is well formed and every reply starts
+    with three digits -/
+def specCodes (stream : Bytes) : Option (List Nat) :=
+  if wfLines stream then decCodes (specFrames stream) else none
 
 /-! ### the class rules -/
 
@@ -178,6 +191,79 @@ def rcptOrder (s : AScript) (o : Obs) : Bool :=
   decide (o.rl.length + 3 ≤ s.codes.length ∨ o.rl = []) &&
   (o.rl.isEmpty || (s.codes[0]? == some 220 && s.codes[1]? == some 250 && lt400 s.codes[2]?))
 
+/-! ### the commands the server receives -/
+
+/-- everything up to and including DATA, recipients in argument order -/
+def fullCmds (a : Args) : Bytes :=
+  lit "HELO " ++ a.helo ++ lit "\r\n" ++ (lit "MAIL FROM:<" ++ a.sender ++ lit ">\r\n") ++
+  a.rcpts.flatMap (fun r => lit "RCPT TO:<" ++ r ++ lit ">\r\n") ++ lit "DATA\r\n"
+
+/-- HELO, MAIL and the first `j` RCPT commands -/
+def cmdsUpTo (a : Args) (j : Nat) : Bytes :=
+  lit "HELO " ++ a.helo ++ lit "\r\n" ++ (lit "MAIL FROM:<" ++ a.sender ++ lit ">\r\n") ++
+  (a.rcpts.take j).flatMap (fun r => lit "RCPT TO:<" ++ r ++ lit ">\r\n")
+
+def quitCmd : Bytes := lit "QUIT\r\n"
+
+/-- `w` = what the server received before a possible final QUIT (`q`) -/
+def wireOrderW (a : Args) (enc w : Bytes) (o : Obs) (q : Bool) : Bool :=
+  w.isPrefixOf (fullCmds a ++ enc) &&
+  (o.rl.isEmpty || (cmdsUpTo a o.rl.length).isPrefixOf w) &&
+  (o.ml != cK || (q && w == fullCmds a ++ enc))
+
+/-- **commands in order**: what the server received is — apart from a final QUIT — a prefix of
+HELO, MAIL, one RCPT per argument in argument order, DATA, the encoded message (`enc`); every
+recipient report was preceded by its RCPT command; `K` only after the whole message and QUIT were sent -/
+def wireOrder (a : Args) (enc : Bytes) (wire : Bytes) (o : Obs) : Bool :=
+  wireOrderW a enc wire o false ||
+  (quitCmd.isSuffixOf wire && wireOrderW a enc (wire.take (wire.length - quitCmd.length)) o true)
+
+/-! ### the QUIT corner
+
+`quit()` writes QUIT through the same `safewrite` as everything else, so in the code as it stands a
+failing QUIT write replaces the verdict that was already decided by "connection died" (`viaQuit`).
+The property does not ask for that; the oracle therefore accepts, when the failing write is the QUIT,
+either what the code does now or the verdict that had been decided (`quitOK s` = the same script with
+the QUIT write succeeding). The strict predicates stay the statements proved about the model. -/
+
+def quitOK (s : AScript) : AScript :=
+  { s with wfail := if s.wfail = some .quit then none else s.wfail }
+
+def verdictOKq (s : AScript) (o : Obs) : Bool :=
+  verdictOK (expect s).v o || verdictOK (expect (quitOK s)).v o
+
+def kSoundQ (s : AScript) (o : Obs) : Bool := kSound s o || kSound (quitOK s) o
+
+/-- `qf` = the QUIT write failed: then `K` does not require QUIT on the wire -/
+def wireOrderQ (a : Args) (enc : Bytes) (wire : Bytes) (o : Obs) (qf : Bool) : Bool :=
+  wireOrder a enc wire o || (qf && wireOrderW a enc wire o true)
+
+/-! ### before the connection: lookup trouble, connect trouble, choice of the address -/
+
+/-- is candidate `c` one the loop may try? -/
+def eligible (cs : List Cand) (c : Cand) : Bool := decide (c.pref < prefme cs)
+
+/-- does an attempt on `c` give a connection? -/
+def connects (c : Cand) : Bool := !c.skip && c.conn == 0
+
+/-- **connect phase**: lookup failures and the absence of any usable address are never `K` (memory and
+    soft failures `Z`, hard ones `D`); when the lookup gave addresses of which some are eligible but none
+    connects the verdict is `Z` (connect trouble), with no recipient report. -/
+def preOK (dnsret : Int) (cs : List Cand) (o : Obs) : Bool :=
+  if dnsret = -3 || dnsret = -1 then o.ml == cZ && o.rl.isEmpty
+  else if dnsret = -2 then o.ml == cD && o.rl.isEmpty
+  else if cs.isEmpty then (if dnsret = 1 then o.ml == cZ else o.ml == cD) && o.rl.isEmpty
+  else if !(cs.any (eligible cs)) then o.ml == cD && o.rl.isEmpty
+  else if !(cs.any (fun c => eligible cs c && connects c)) then o.ml == cZ && o.rl.isEmpty
+  else true
+
+/-- when an address connects it is the first eligible one that does, and every report of `smtp()` names
+    it (`outhost()`): the output contains its `ip_fmt` (oracle only; tied by correspondence) -/
+def hostNamed (cs : List Cand) (out : Bytes) : Bool :=
+  match cs.find? (fun c => eligible cs c && connects c) with
+  | none => true
+  | some c => hasInfix c.host out
+
 /-! ### the spawner's report -/
 
 /-- the NUL-terminated records of qmail-remote's output (an unterminated tail is not a record) -/
@@ -209,6 +295,19 @@ def rspawnClasses (wstat : Nat) (s : Bytes) (rep : Bytes) : Bool :=
   else if wstat / 256 ≠ 0 then headB rep == cD
   else if s.isEmpty then headB rep == cZ
   else isKZD (headB rep)
+
+/-- **the relayed text comes from the child's output only.** After a normal exit with some output the
+    text behind the letter is empty, or the text of the first report (the bytes `s[1..]` up to the first
+    NUL), or that followed by the text of the report after it (the bytes behind that NUL up to the next
+    NUL or the end of the output, without their first byte) — nothing that is not in `s`, in particular
+    nothing from behind its end when the output lacks its final NUL. -/
+def relayWithin (s rep : Bytes) : Bool :=
+  let t := rep.drop 1
+  let s1 := s.drop 1
+  t == [] || t == cstr s1 ||
+  (match afterNul s1 with
+   | some rest => t == cstr s1 ++ (cstr rest).drop 1
+   | none => false)
 
 /-- **no upgrade**: the relayed letter is never better than the message result, and never better than
     the recipient's own class when that is `h` (permanent) or `s` (temporary); no K/Z/D record → not K -/
